@@ -259,6 +259,18 @@ impl Monitor for TlvMon {
                                 // overflow: in-order, duplicate-free subsequence of what was queued
                                 let own_path = if run.cfg.node.path_trace { want.len() } else { 0 };
                                 let mut pos = st.emitted[q].last().map(|x| x + 1).unwrap_or(0);
+                                // ... and not nothing: the channel still holds the newest arrivals, and the
+                                // oldest of them that this port has not sent goes out if it fits
+                                if m.tlvs.len() <= own_path && st.all[q].len() > pos {
+                                    let oldest_held = pos.max(st.all[q].len().saturating_sub(128));
+                                    if 4 + st.all[q][oldest_held].value.len() <= margin {
+                                        local.push(Violation {
+                                            signature: "forwarded-tlvs-missing-after-overflow".into(),
+                                            message: format!("the forwarder lagged: {} TLVs arrived since this port last sent one, the Announce has room for the oldest one still held ({} bytes) and carries none", st.all[q].len() - pos, 4 + st.all[q][oldest_held].value.len()),
+                                            replay: json!(null),
+                                        });
+                                    }
+                                }
                                 for t in m.tlvs.iter().skip(own_path) {
                                     let found = (pos..st.all[q].len()).find(|&i| st.all[q][i].typ == t.typ && st.all[q][i].value == t.value);
                                     match found {
@@ -555,6 +567,21 @@ pub fn run(tier: Tier) -> i32 {
                 h.push(ann_with(&parent, 501, vec![path_tlv(&entries[..l / 2])]));
                 h.extend(tann_all(n, 1));
                 hists.push(h);
+                // a path of the same length with other content (a grandmaster change at equal depth)
+                if l > 0 {
+                    let mut other_path = entries.clone();
+                    other_path[0] = [0xcc, 0, 0, 0, 0, 0, 0, 1];
+                    if l > 2 {
+                        other_path[l / 2] = [0xcc, 0, 0, 0, 0, 0, 0, 2];
+                    }
+                    let mut h = vec![ann_with(&parent, 500, vec![path_tlv(&entries)])];
+                    h.extend(tann_all(n, 1));
+                    h.push(ann_with(&parent, 501, vec![path_tlv(&other_path)]));
+                    h.extend(tann_all(n, 1));
+                    h.push(ann_with(&parent, 502, vec![path_tlv(&entries)]));
+                    h.extend(tann_all(n, 1));
+                    hists.push(h);
+                }
                 // a loop: own identity at position k
                 for k in [0usize, 1, l / 2, l.saturating_sub(1)] {
                     if k < l {
